@@ -131,6 +131,9 @@ pub fn main(args: &Args) -> std::io::Result<()> {
         let mut stt = StrokeTessellator::new();
         st.inc("histories");
         for (k, c) in history.iter().enumerate() {
+            if k > 0 {
+                breadcrumb(&args.out, &format!("call {} of history {:?}", k, &history[..=k]));
+            }
             let used = run_call(c, &mut ft, &mut stt);
             let fresh = run_call(c, &mut FillTessellator::new(), &mut StrokeTessellator::new());
             st.inc("evaluations");
@@ -170,5 +173,6 @@ pub fn main(args: &Args) -> std::io::Result<()> {
             }
         }
     }
+    clear_breadcrumb(&args.out);
     st.write(&args.out.join("c08_stats.json"))
 }
